@@ -25,6 +25,9 @@ func vhChunkedSend(enc bool, nw int, maxw int) (sc, rc *vhConn, s, r *Stream, ms
 		if err := s.WriteMessage(vhCtx, w); err != nil {
 			return sc, rc, s, r, msg, false
 		}
+		// the buffer handed to WriteMessage is the caller's again once the call has
+		// returned (an io.Copy-style loop refills it): overwrite it
+		copy(w, make([]byte, len(w)))
 	}
 	if err := s.EndMessage(vhCtx); err != nil {
 		return sc, rc, s, r, msg, false
